@@ -5,7 +5,7 @@ Property theorems for pkg/format/rtpvp8 (encoder.go + pion VP8Payloader, decoder
 VP8Packet), about the model in `Model/Codec/Vp8.lean`.
 
   C06  c06_encode_some, c06_payload_le, c06_seq_consecutive, c06_seq_many, c06_pt_ssrc, c06_marker_only_last
-  C08  c08_inv_init, c08_inv_decode, c08_retained_le, c08_out_le
+  C08  c08_inv_init, c08_inv_decode, c08_retained_le, c08_fragment_count_le, c08_out_le
   C03  c03_roundtrip (from ANY decoder state), c03_roundtrip_many
   C07  c07_flush, c07_resync
 
@@ -169,52 +169,74 @@ theorem c06_marker_only_last (e e' : Enc) (f : Bytes) (ps : List Pkt) (hc : Vali
 structure Inv (d : Dec) : Prop where
   size_eq : d.frameBufferSize = totalLen d.frameBuffer
   size_le : d.frameBufferSize ≤ CodecAv1vp.vp8MaxFrameSize
+  ne      : ∀ x ∈ d.frameBuffer, 0 < x.length
 
 def Clean (d : Dec) : Prop := d.frameBufferSize = 0 ∧ d.frameBuffer = []
 
 instance (d : Dec) : Decidable (Clean d) := by unfold Clean; infer_instance
 
-theorem c08_inv_init : Inv {} := ⟨rfl, by simp⟩
+theorem c08_inv_init : Inv {} := ⟨rfl, by simp, by simp⟩
 
-theorem inv_reset (d : Dec) : Inv d.reset := ⟨rfl, by simp [Dec.reset]⟩
+theorem inv_reset (d : Dec) : Inv d.reset := ⟨rfl, by simp [Dec.reset], by simp [Dec.reset]⟩
 
-/-- `decodeFrameChunk` keeps the invariant and, when it yields a chunk, the chunk is a non-empty
-suffix of the packet payload -/
+theorem isEmpty_false_pos (x : Bytes) (h : ¬ x.isEmpty = true) : 0 < x.length := by
+  cases x with
+  | nil => simp at h
+  | cons a t => simp
+
+/-- `decodeFrameChunk` keeps the invariant and, when it yields a chunk, the chunk is non-empty -/
 theorem chunk_inv (d : Dec) (p : Pkt) (hi : Inv d) :
-    Inv (decodeFrameChunk d p).1 := by
+    Inv (decodeFrameChunk d p).1 ∧ ∀ c, (decodeFrameChunk d p).2 = .ok c → 0 < c.length := by
   unfold decodeFrameChunk
   split
-  · exact inv_reset d
+  · exact ⟨inv_reset d, by intro c h; simp at h⟩
   · split
-    · exact inv_reset d
-    · split
-      · exact ⟨rfl, by simp [Dec.reset]⟩
+    · exact ⟨inv_reset d, by intro c h; simp at h⟩
+    · rename_i v _ hne
+      have hpos := isEmpty_false_pos v.payload hne
+      split
+      · exact ⟨⟨rfl, by simp [Dec.reset], by simp [Dec.reset]⟩, by intro c h; simp at h; rw [← h]; exact hpos⟩
       · split
-        · exact hi
+        · exact ⟨hi, by intro c h; simp at h⟩
         · split
-          · exact inv_reset d
-          · exact ⟨hi.size_eq, hi.size_le⟩
+          · exact ⟨inv_reset d, by intro c h; simp at h⟩
+          · exact ⟨⟨hi.size_eq, hi.size_le, hi.ne⟩, by intro c h; simp at h; rw [← h]; exact hpos⟩
 
 /-- **C08**: the invariant is preserved by `Decode` on EVERY packet. -/
 theorem c08_inv_decode (d : Dec) (p : Pkt) (hi : Inv d) : Inv (decode d p).1 := by
-  have h := chunk_inv d p hi
+  obtain ⟨h, hne⟩ := chunk_inv d p hi
   unfold decode
   split
   · rename_i d1 heq; rw [heq] at h; exact h
   · rename_i d1 heq; rw [heq] at h; exact h
   · rename_i d1 chunk heq
-    rw [heq] at h
-    simp only at h ⊢
+    rw [heq] at h hne
+    simp only at h hne ⊢
+    have hc := hne chunk rfl
     split
     · exact inv_reset d1
     · rename_i hle
       split
-      · exact ⟨by simp [h.size_eq], by simp only; omega⟩
+      · refine ⟨by simp [h.size_eq], by simp only; omega, ?_⟩
+        intro x hx
+        simp only [List.mem_append, List.mem_singleton] at hx
+        rcases hx with hx | hx
+        · exact h.ne x hx
+        · subst hx; exact hc
       · exact inv_reset _
 
 /-- **C08 bounded memory**: retained bytes ≤ `vp8.MaxFrameSize` (2 MiB). -/
 theorem c08_retained_le (d : Dec) (hi : Inv d) : retained d ≤ CodecAv1vp.vp8MaxFrameSize := by
   unfold retained; rw [← hi.size_eq]; exact hi.size_le
+
+/-- **C08 bounded number of retained slices**: every retained chunk is non-empty, so the decoder
+never holds more chunks than bytes (no growth by empty fragments). -/
+theorem c08_fragment_count_le (d : Dec) (hi : Inv d) :
+    d.frameBuffer.length ≤ retained d ∧ d.frameBuffer.length ≤ CodecAv1vp.vp8MaxFrameSize := by
+  have h1 := length_le_totalLen d.frameBuffer hi.ne
+  have h2 := c08_retained_le d hi
+  unfold retained at *
+  omega
 
 /-- **C08 output bound**: no returned frame exceeds `vp8.MaxFrameSize`. -/
 theorem c08_out_le (d : Dec) (p : Pkt) (f : Bytes) (h : (decode d p).2 = .ok f) :
@@ -399,6 +421,6 @@ example : (encode exEnc exFrame).map (·.2.map (·.seq)) = some [65535, 0, 1] :=
 example : ((encode exEnc exFrame).map fun r =>
     (runDec { frameBuffer := [[9, 9]], frameBufferSize := 2, nextSeq := 77 } r.2).2)
     = some [.more, .more, .ok exFrame] := by decide
-example : Inv { frameBuffer := [[9, 9]], frameBufferSize := 2, nextSeq := 77 } := ⟨by decide, by decide⟩
+example : Inv { frameBuffer := [[9, 9]], frameBufferSize := 2, nextSeq := 77 } := ⟨by decide, by decide, by decide⟩
 
 end Rtsp.Codec.Vp8
